@@ -29,7 +29,7 @@ func TestDrive(t *testing.T) {
 	defer tw.Close()
 	w := NewWorld(t)
 	for _, s := range scheds {
-		w.StartEpoch(s.Ubd0)
+		w.StartEpoch(s.Ubd0, s.Lay)
 		tw.Emit(TraceLine{Tr: s.ID, I: 0, Ubd0: s.Ubd0, A: json.RawMessage(`{"a":"Init","dt":0}`), Res: "ok", St: w.State(), Diff: []string{}})
 		for i, raw := range s.Acts {
 			var a Action
